@@ -257,3 +257,25 @@ Proof.
   eexists; split; vm_compute; reflexivity.
 Qed.
 Print Assumptions C09_create_over_removed_validator_before_fix.
+
+(* ---- the three storage layers: dirtyStorage over pendingStorage (slots written
+   by earlier, finalised transactions of the block) over the committed value
+   (originStorage / storage trie).  An earlier transaction left slot 1 = 1
+   pending over the committed 0; a later one writes 0 back, snapshots, writes 2
+   and reverts: the revert must leave a dirty 0 that shadows the pending 1. *)
+Definition sl_pre : list op :=
+  [OPrepare 1 0; OSetNonce 1 1; OSetState 1 1 1; OFinalise true; OPrepare 2 1; OSetState 1 1 0].
+Definition sl_s0 : state := run_or_t sl_pre init.
+Definition sl_ops : list op := [OSetState 1 1 2].
+Definition sl_s : state := run_or_t sl_ops (fst (snapshot sl_s0)).
+Example C09_storage_layers_across_transactions :
+  window FX_NOW (next_rev sl_s0) sl_ops (fst (snapshot sl_s0)) sl_s /\
+  exists s' o, revert_to_snapshot FX_NOW sl_s (next_rev sl_s0) = Some s' /\
+               get_obj (sa s') 1 = Some o /\
+               find (o_pending o) 1 = Some 1 /\ slot (o_commit o) 1 = 0 /\ find (o_dirty o) 1 = Some 0 /\
+               get_state o 1 = 0 /\ get_committed o 1 = 1.
+Proof.
+  split; [apply window_run_ok; vm_compute; reflexivity|].
+  eexists; eexists; split; [vm_compute; reflexivity|]. repeat split; vm_compute; reflexivity.
+Qed.
+Print Assumptions C09_storage_layers_across_transactions.
